@@ -209,7 +209,9 @@ impl LenCase {
 }
 
 fn boundary_cases(table: &RewriteTable, tier: Tier) -> Vec<LenCase> {
-    let units = ["a", "1", "é", "東", "𠮷", "㍿", "\u{fdfa}", "ｶﾞ", "Ａ", "あ", "\u{301}", " "];
+    // (U+023A lower-cases to a character that is one byte longer, U+1E9E to one that is one byte
+    // shorter: replacements of one character by one character that change the length)
+    let units = ["a", "1", "é", "東", "𠮷", "㍿", "\u{fdfa}", "ｶﾞ", "Ａ", "あ", "\u{301}", " ", "\u{23a}", "\u{1e9e}"];
     let mut v = Vec::new();
     let pad = "a";
     for u in units {
